@@ -1,4 +1,18 @@
 import Oas3Model.Model.Registry
+import Oas3Model.Proofs.Registry
+/-
+C08: "`list operations`, `--only` and `--exclude` agree and are exact".
+
+`listIds ops` is what `list` prints; `build {only := some S, excluded := none} ops` is what
+`--only S` generates; `build {only := none, excluded := some S} ops` is what `--exclude S` generates.
+
+The property holds under two hypotheses on the spec (`select_exact`):
+  * the base ids are pairwise distinct (no uniquifying suffix is ever added), and
+  * common-affix trimming is the identity on every sub-selection (`TrimFree`).
+Without them it FAILS in the model exactly as in the real generator (`cex_suffix`, `cex_trim`,
+`cex_trim_nonident`): the filter is applied to the BASE id, while `list` prints the id after
+uniquifying and trimming, and trimming depends on the selection itself.
+-/
 namespace Oas3.Props.C08
 open Oas3.Registry
 
@@ -10,5 +24,262 @@ theorem filter_whole_id (only : List Id) (b : Id) :
 theorem exclude_complement (ex : List Id) (b : Id) :
     accepts { only := none, excluded := some ex } b = !(accepts { only := some ex, excluded := none } b) := by
   simp [accepts]
+
+/-! ### 1. ingestion: with pairwise distinct base ids no uniquifying suffix is ever added -/
+
+theorem ingest_nodup_base (f : Filter) (ops : List Op) (h : (ops.map baseId).Nodup) :
+    ingest f ops [] =
+      some ((ops.filter (fun o => accepts f (baseId o))).map (fun o => (baseId o, o))) := by
+  have := ingest_nodup_base_acc f ops [] h (by simp)
+  simpa using this
+
+/-! ### 2. `specOrder` is a permutation of the operations -/
+
+theorem specOrder_perm (ops : List Op) :
+    (∀ o, o ∈ specOrder ops ↔ o ∈ ops) ∧
+    (specOrder ops).length = ops.length ∧
+    ((ops.map baseId).Nodup → ((specOrder ops).map baseId).Nodup) := by
+  have hp := specOrder_perm' ops
+  refine ⟨fun o => hp.mem_iff, hp.length_eq, fun h => ?_⟩
+  exact ((hp.map baseId).nodup_iff).mpr h
+
+/-- the same fact as a `List.Perm` -/
+theorem specOrder_isPerm (ops : List Op) : (specOrder ops).Perm ops := specOrder_perm' ops
+
+/-! ### 3. exactness of `list` / `--only` / `--exclude` -/
+
+/-- common-affix trimming is the identity on every sub-selection -/
+def TrimFree (ids : List Id) : Prop := ∀ l, l.Sublist ids → trim l = l
+
+/-- `build` under the two hypotheses, for an arbitrary filter -/
+theorem build_exact (ops : List Op) (f : Filter)
+    (hnd : ((specOrder ops).map baseId).Nodup)
+    (htf : TrimFree ((specOrder ops).map baseId)) :
+    build f ops =
+      some (((specOrder ops).filter (fun o => accepts f (baseId o))).map (fun o => (baseId o, o))) := by
+  have hsub : (((specOrder ops).filter (fun o => accepts f (baseId o))).map baseId).Sublist
+      ((specOrder ops).map baseId) := (List.filter_sublist).map baseId
+  simp only [build, ingest_nodup_base f (specOrder ops) hnd, List.map_map]
+  have h1 : ((fun x : Id × Op => x.1) ∘ fun o => (baseId o, o)) = baseId := rfl
+  have h2 : ((fun x : Id × Op => x.2) ∘ fun o => (baseId o, o)) = id := rfl
+  rw [h1, h2, htf _ hsub]
+  have := zip_map_fst_snd baseId id ((specOrder ops).filter (fun o => accepts f (baseId o)))
+  simpa using this
+
+theorem select_exact (ops : List Op)
+    (hnd : ((specOrder ops).map baseId).Nodup)
+    (htf : TrimFree ((specOrder ops).map baseId)) (S : List Id) :
+    listIds ops = some ((specOrder ops).map (fun o => (baseId o, o))) ∧
+    build { only := some S, excluded := none } ops =
+      some (((specOrder ops).filter (fun o => S.contains (baseId o))).map (fun o => (baseId o, o))) ∧
+    build { only := none, excluded := some S } ops =
+      some (((specOrder ops).filter (fun o => !S.contains (baseId o))).map (fun o => (baseId o, o))) := by
+  refine ⟨?_, ?_, ?_⟩
+  · rw [listIds, build_exact ops _ hnd htf]
+    have : (specOrder ops).filter (fun _ => true) = specOrder ops :=
+      List.filter_eq_self.mpr (fun _ _ => rfl)
+    simp only [accepts, Bool.and_self, this]
+  · rw [build_exact ops _ hnd htf]
+    simp [accepts]
+  · rw [build_exact ops _ hnd htf]
+    simp [accepts]
+
+/-- `select_exact` with the distinctness hypothesis stated on the spec's operations in any order -/
+theorem select_exact_of_nodup (ops : List Op)
+    (hnd : (ops.map baseId).Nodup)
+    (htf : TrimFree ((specOrder ops).map baseId)) (S : List Id) :
+    listIds ops = some ((specOrder ops).map (fun o => (baseId o, o))) ∧
+    build { only := some S, excluded := none } ops =
+      some (((specOrder ops).filter (fun o => S.contains (baseId o))).map (fun o => (baseId o, o))) ∧
+    build { only := none, excluded := some S } ops =
+      some (((specOrder ops).filter (fun o => !S.contains (baseId o))).map (fun o => (baseId o, o))) :=
+  select_exact ops ((specOrder_perm ops).2.2 hnd) htf S
+
+/-- `--only S` generates exactly the listed rows whose PRINTED id is in `S`, in listing order, each
+once (the printed ids are pairwise distinct, so `rows.filter` keeps at most one row per id);
+`--exclude S` generates exactly the other listed rows. -/
+theorem select_only_exact (ops : List Op)
+    (hnd : ((specOrder ops).map baseId).Nodup)
+    (htf : TrimFree ((specOrder ops).map baseId)) (S : List Id) :
+    ∃ rows : List (Id × Op),
+      listIds ops = some rows ∧
+      (rows.map (·.1)).Nodup ∧ rows.Nodup ∧
+      rows.map (·.2) = specOrder ops ∧
+      build { only := some S, excluded := none } ops = some (rows.filter (fun r => S.contains r.1)) ∧
+      build { only := none, excluded := some S } ops = some (rows.filter (fun r => !S.contains r.1)) := by
+  obtain ⟨hl, ho, he⟩ := select_exact ops hnd htf S
+  refine ⟨_, hl, ?_, ?_, ?_, ?_, ?_⟩
+  · simpa [List.map_map, Function.comp_def] using hnd
+  · have hfst : (((specOrder ops).map (fun o => (baseId o, o))).map (·.1)).Nodup := by
+      simpa [List.map_map, Function.comp_def] using hnd
+    exact List.Pairwise.of_map (·.1) (fun a b h hab => h (hab ▸ rfl)) hfst
+  · simp [List.map_map, Function.comp_def]
+  · rw [ho, List.filter_map]; rfl
+  · rw [he, List.filter_map]; rfl
+
+/-- membership form: a row is generated by `--only S` iff it is listed and its printed id is in `S`;
+by `--exclude S` iff it is listed and its printed id is not in `S`. -/
+theorem select_mem_iff (ops : List Op)
+    (hnd : ((specOrder ops).map baseId).Nodup)
+    (htf : TrimFree ((specOrder ops).map baseId)) (S : List Id) :
+    ∃ rows sel rest : List (Id × Op),
+      listIds ops = some rows ∧
+      build { only := some S, excluded := none } ops = some sel ∧
+      build { only := none, excluded := some S } ops = some rest ∧
+      sel.Nodup ∧ rest.Nodup ∧
+      (∀ r, r ∈ sel ↔ r ∈ rows ∧ r.1 ∈ S) ∧
+      (∀ r, r ∈ rest ↔ r ∈ rows ∧ r.1 ∉ S) := by
+  obtain ⟨rows, hl, _, hrn, _, ho, he⟩ := select_only_exact ops hnd htf S
+  refine ⟨rows, _, _, hl, ho, he, hrn.filter _, hrn.filter _, ?_, ?_⟩
+  · intro r; simp [List.mem_filter]
+  · intro r; simp [List.mem_filter]
+
+/-- `--only S` and `--exclude S` partition the listing: together they are a permutation of the
+listed rows (hence of `specOrder ops` on the operation component), and they are disjoint. -/
+theorem only_exclude_partition (ops : List Op)
+    (hnd : ((specOrder ops).map baseId).Nodup)
+    (htf : TrimFree ((specOrder ops).map baseId)) (S : List Id) :
+    ∃ rows sel rest : List (Id × Op),
+      listIds ops = some rows ∧
+      build { only := some S, excluded := none } ops = some sel ∧
+      build { only := none, excluded := some S } ops = some rest ∧
+      (sel ++ rest).Perm rows ∧
+      ((sel ++ rest).map (·.2)).Perm (specOrder ops) ∧
+      sel.length + rest.length = ops.length ∧
+      (∀ r, r ∈ sel → r ∉ rest) ∧
+      (∀ o, o ∈ ops → ((o ∈ sel.map (·.2) ∧ o ∉ rest.map (·.2)) ∨ (o ∉ sel.map (·.2) ∧ o ∈ rest.map (·.2)))) := by
+  obtain ⟨rows, hl, _, _, hr2, ho, he⟩ := select_only_exact ops hnd htf S
+  have hperm : (rows.filter (fun r => S.contains r.1) ++ rows.filter (fun r => !S.contains r.1)).Perm rows :=
+    List.filter_append_perm _ rows
+  refine ⟨rows, _, _, hl, ho, he, hperm, ?_, ?_, ?_, ?_⟩
+  · rw [← hr2]; exact hperm.map _
+  · have := hperm.length_eq
+    rw [List.length_append] at this
+    rw [this, ← (specOrder_perm ops).2.1, ← hr2, List.length_map]
+  · intro r h1 h2
+    simp [List.mem_filter] at h1 h2
+    exact h2.2 h1.2
+  · intro o ho'
+    have hos : o ∈ specOrder ops := ((specOrder_perm ops).1 o).mpr ho'
+    -- every listed row is `(baseId o', o')`
+    have hrows : rows = (specOrder ops).map (fun o => (baseId o, o)) := by
+      have := (select_exact ops hnd htf S).1
+      rw [hl] at this
+      exact Option.some.inj this
+    subst hrows
+    by_cases hS : baseId o ∈ S
+    · left
+      refine ⟨?_, ?_⟩
+      · simp only [List.mem_map, List.mem_filter]
+        exact ⟨(baseId o, o), ⟨⟨o, hos, rfl⟩, List.contains_iff_mem.mpr hS⟩, rfl⟩
+      · simp only [List.mem_map, List.mem_filter]
+        rintro ⟨r, ⟨⟨o', _, rfl⟩, hn⟩, hro⟩
+        simp only at hro hn
+        subst hro
+        simp [hS] at hn
+    · right
+      refine ⟨?_, ?_⟩
+      · simp only [List.mem_map, List.mem_filter]
+        rintro ⟨r, ⟨⟨o', _, rfl⟩, hn⟩, hro⟩
+        simp only at hro hn
+        subst hro
+        simp [hS] at hn
+      · simp only [List.mem_map, List.mem_filter]
+        exact ⟨(baseId o, o), ⟨⟨o, hos, rfl⟩, by simp [hS]⟩, rfl⟩
+
+/-! ### 5. decidable reformulation of `TrimFree` and non-vacuity -/
+
+def trimFreeB (ids : List Id) : Bool := (subseqs ids).all (fun l => trim l == l)
+
+theorem trimFree_of_trimFreeB {ids : List Id} (h : trimFreeB ids = true) : TrimFree ids := by
+  intro l hl
+  have := List.all_eq_true.mp h l (mem_subseqs_of_sublist hl)
+  simpa using this
+
+/-- three operations with no common prefix/suffix segment among any sub-selection -/
+def okOps : List Op :=
+  [ { method := "GET".toList,  path := "/a".toList, operationId := some "alpha".toList },
+    { method := "POST".toList, path := "/b".toList, operationId := some "beta".toList },
+    { method := "GET".toList,  path := "/c".toList, operationId := some "gamma_delta".toList } ]
+
+theorem okOps_ids :
+    (specOrder okOps).map baseId = ["alpha".toList, "beta".toList, "gamma_delta".toList] := by
+  decide +kernel
+
+theorem okOps_nodup : ((specOrder okOps).map baseId).Nodup := by
+  rw [okOps_ids]; decide
+
+theorem okOps_trimFree : TrimFree ((specOrder okOps).map baseId) := by
+  apply trimFree_of_trimFreeB
+  rw [okOps_ids]
+  decide +kernel
+
+/-- the hypotheses of `select_exact` are satisfiable, and its conclusion is what the model computes -/
+theorem select_exact_nonvacuous :
+    listIds okOps = some (okOps.map (fun o => (baseId o, o))) ∧
+    build { only := some ["beta".toList], excluded := none } okOps =
+      some [("beta".toList, { method := "POST".toList, path := "/b".toList, operationId := some "beta".toList })] ∧
+    (build { only := none, excluded := some ["beta".toList] } okOps).map (·.map (·.1)) =
+      some ["alpha".toList, "gamma_delta".toList] := by
+  obtain ⟨h1, h2, h3⟩ := select_exact okOps okOps_nodup okOps_trimFree ["beta".toList]
+  refine ⟨?_, ?_, ?_⟩
+  · rw [h1]; decide +kernel
+  · rw [h2]; decide +kernel
+  · rw [h3]; decide +kernel
+
+/-! ### 4. recorded defects, reproduced by the model (the unconditional property is FALSE) -/
+
+def trimOps : List Op :=
+  [ { method := "GET".toList, path := "/u".toList,      operationId := some "api_users_list".toList },
+    { method := "GET".toList, path := "/u/{id}".toList, operationId := some "api_users_get".toList } ]
+
+/-- `list` prints the TRIMMED ids `list`, `get`; an id copied from that output selects nothing,
+while the untrimmed base id (never printed) does select the operation. -/
+theorem cex_trim :
+    (listIds trimOps).map (·.map (·.1)) = some ["list".toList, "get".toList] ∧
+    build { only := some ["get".toList], excluded := none } trimOps = some [] ∧
+    build { only := some ["api_users_get".toList], excluded := none } trimOps =
+      some [("api_users_get".toList,
+             { method := "GET".toList, path := "/u/{id}".toList, operationId := some "api_users_get".toList })] := by
+  decide +kernel
+
+def dupOps : List Op :=
+  [ { method := "GET".toList,  path := "/a".toList, operationId := some "x".toList },
+    { method := "POST".toList, path := "/a".toList, operationId := some "x".toList } ]
+
+/-- two operations sharing an `operationId` are listed as `x`, `x_2`; `--only x` yields BOTH,
+`--only x_2` yields none (the filter sees the base id, before the uniquifying suffix). -/
+theorem cex_suffix :
+    (listIds dupOps).map (·.map (·.1)) = some ["x".toList, "x_2".toList] ∧
+    (build { only := some ["x".toList], excluded := none } dupOps).map (·.map (·.1)) =
+      some ["x".toList, "x_2".toList] ∧
+    build { only := some ["x_2".toList], excluded := none } dupOps = some [] := by
+  decide +kernel
+
+def nonIdentOps : List Op :=
+  [ { method := "GET".toList,    path := "/a".toList,    operationId := some "a".toList },
+    { method := "DELETE".toList, path := "/pets".toList, operationId := some "a_2".toList },
+    { method := "PUT".toList,    path := "/pets".toList, operationId := some "a_2".toList } ]
+
+/-- `--exclude a` leaves `a_2`, `a_2_2`, whose common prefix segment `a` is trimmed: the resulting
+ids `2` and `2_2` are not identifiers (the real generator panics). -/
+theorem cex_trim_nonident :
+    (listIds nonIdentOps).map (·.map (·.1)) = some ["a".toList, "a_2".toList, "a_2_2".toList] ∧
+    (build { only := none, excluded := some ["a".toList] } nonIdentOps).map (·.map (·.1)) =
+      some ["2".toList, "2_2".toList] ∧
+    Oas3.Naming.identShape "2".toList = false ∧ Oas3.Naming.identShape "2_2".toList = false := by
+  decide +kernel
+
+/-- the hypotheses of `select_exact` cannot be dropped: "`--only S` = listed rows with printed id
+in `S`" fails for some spec and some `S` taken from the printed ids. -/
+theorem exactness_fails_unconditionally :
+    ¬ ∀ (ops : List Op) (S : List Id) (rows : List (Id × Op)), listIds ops = some rows →
+        build { only := some S, excluded := none } ops = some (rows.filter (fun r => S.contains r.1)) := by
+  intro h
+  have := h trimOps ["get".toList] _ (by decide +kernel : listIds trimOps = some
+    [("list".toList, { method := "GET".toList, path := "/u".toList, operationId := some "api_users_list".toList }),
+     ("get".toList, { method := "GET".toList, path := "/u/{id}".toList, operationId := some "api_users_get".toList })])
+  revert this
+  decide +kernel
 
 end Oas3.Props.C08
